@@ -109,10 +109,13 @@ class FakeS3:
                 assert Range.startswith("bytes=")
                 a, b = Range[6:].split("-")
                 a, b = int(a), int(b)
-                if a >= len(data) or b < a:
+                if b < a:
+                    pass        # a syntactically invalid range (last < first) is IGNORED by S3: the whole object comes back
+                elif a >= len(data):
                     self.log.append(("get-416", Key, Range))
                     raise client_error("InvalidRange", "GetObject")
-                data = data[a:b + 1]
+                else:
+                    data = data[a:b + 1]
             self.log.append(("get", Key, Range))
             res = {"Body": _Body(data), "ETag": o.etag, "LastModified": o.mtime, "ContentLength": len(data)}
         self._h("after", "get", Key, {})
